@@ -125,6 +125,10 @@ func probeQuirks() string {
 			defer func() { _ = recover() }()
 			r.Exec("create seed=" + probeSeed + " q=-")
 			r.Exec("unlock p=0")
+			r.Exec("newscope s=1999:0 ext=4 int=4")
+			if rep, _ := r.Exec("newacct s=1999:0 name=9"); strings.HasPrefix(rep, "ok acct=0") {
+				q = append(q, "l1")
+			}
 			r.Exec("importscript s=86:0 k=1 kind=2 secret=1 h=1")
 			if _, v := r.Exec("convertwo"); strings.Contains(v, "taproot-secret-script-survives") {
 				q = append(q, "t1")
